@@ -619,8 +619,9 @@ def statements(ctx, strings):
                         got = con.execute(sql, {'n%d' % (i + 1): a for i, a in enumerate(args)}).fetchall()
                         # cx_Oracle's positional reading: one value per occurrence, left to right
                         sql2 = ''.join('?' if isinstance(x, Param) else str(x) for x in b.result).rstrip('\n')
-                        got2 = con.execute(sql2, args).fetchall()
-                        if got2 != got: got = ['readings differ', got, got2]
+                        try: got2 = con.execute(sql2, args).fetchall()
+                        except Exception as e: got2 = 'raised %s' % type(e).__name__
+                        ctx.count('statement:numeric:positional-reading-%s' % ('agrees' if got2 == got else 'differs'))
                     elif style == 'format': got = con.execute(b.sql % tuple(sql_lit(a) for a in args)).fetchall()
                     else: got = con.execute(b.sql % {k: sql_lit(v) for k, v in args.items()}).fetchall()
                 got = list(got[0]) if len(got) == 1 else got
